@@ -21,6 +21,13 @@ func Vector(o *world.Obs) []string {
 			b.WriteString("err")
 		case ex.Resp != nil:
 			fmt.Fprintf(&b, "%d %s tok=%s val=%s bodylen=%d", ex.Resp.Status, ex.Resp.Header.Get("X-Httpcache-Status"), ex.Resp.Header.Get("X-Tok"), ex.Resp.Header.Get("X-Val"), len(ex.Resp.Body))
+			// which of the fields a qualified no-cache may name are on the response (equivalent
+			// spellings of the directive withhold the same fields)
+			for _, f := range []string{"X-Secret", "X-Other", "X-Plain", "Etag", "Last-Modified"} {
+				if len(ex.Resp.Header.Values(f)) > 0 {
+					b.WriteString(" +" + f)
+				}
+			}
 		}
 		for _, c := range o.CallsOf(ex.Idx) {
 			fmt.Fprintf(&b, " [s%d fg=%v inm=%q ims=%q %s %d t=%d..%d]", c.Serial, c.Fg, c.Header.Get("If-None-Match"), c.Header.Get("If-Modified-Since"), c.Kind, c.Status, c.StartNs, c.EndNs)
